@@ -98,7 +98,7 @@ def run(ctx):
 
     # 2. type-check everything against the current tree
     t0 = time.time()
-    chk = sh(["cargo", "check", "--offline", "--keep-going", "--bins", "--message-format=json"], cwd=CORPUS, timeout=3000)
+    chk = sh(["cargo", "check", "--offline", "--keep-going", "--bins", "--message-format=json", "--target-dir", TARGET], cwd=CORPUS, timeout=3000)
     errs, built = {}, set()
     lib_failed = False
     for line in chk.stdout.splitlines():
@@ -175,7 +175,7 @@ def run(ctx):
 
     # 3. build and run what compiles
     t0 = time.time()
-    bld = sh(["cargo", "build", "--offline", "--keep-going", "--bins"], cwd=CORPUS, timeout=3000)
+    bld = sh(["cargo", "build", "--offline", "--keep-going", "--bins", "--target-dir", TARGET], cwd=CORPUS, timeout=3000)
     log("built probes in %.1fs" % (time.time() - t0))
     scratch = "/dev/shm" if os.path.isdir("/dev/shm") else "/tmp"
 
